@@ -159,7 +159,9 @@ Theorem dec_any_prog : forall fuel id s, (length s + 1 < fuel)%nat -> prog s (ru
 Proof. intros. now apply dany_prog. Qed.
 
 Lemma dmap_prog fuel dep id s : (length s + 1 < fuel)%nat -> prog s (run_flat (dmap fuel dep id) s).
-Proof. intros H. unfold dmap. top_ifs; try exact I. apply dany_prog, H. Qed.
+Proof.
+  intros H. unfold dmap. pg; try lia. apply prog_prog0, dany_prog. lia.
+Qed.
 Lemma dec_map_prog fuel id s : (length s + 1 < fuel)%nat -> prog0 s (run_flat (dec_map fuel id) s).
 Proof. intros H. apply prog_prog0, dmap_prog, H. Qed.
 
